@@ -565,6 +565,22 @@ func (g *Gen) Emit(dir, pkgName string, b Binding, snips []*Snippet, theme strin
 		os.WriteFile(filepath.Join(dir, "noimp_gen.go"), []byte(nb.String()), 0o644)
 		classSet["importless-sibling"] = true
 	}
+	// a file that pins its own language version with a build constraint (satisfied by every
+	// supported toolchain, so the file stays part of the package); per-file version logic must
+	// stay per file
+	if g.Rng.Intn(4) == 0 {
+		n := []int{1, 9, 12, 13, 16, 17, 18, 20, 21, 22}[g.Rng.Intn(10)]
+		hdr := []string{"//go:build go1.%d", "//go:build go1.%d && !neververif", "//go:build (linux || !linux) && go1.%d", "//go:build go1.%d\n// +build go1.%d"}[g.Rng.Intn(4)]
+		if strings.Count(hdr, "%d") == 2 {
+			hdr = fmt.Sprintf(hdr, n, n)
+		} else {
+			hdr = fmt.Sprintf(hdr, n)
+		}
+		name := []string{"aver_gen.go", "zver_gen.go"}[g.Rng.Intn(2)]
+		body := fmt.Sprintf("%s\n\npackage %s\n\nvar Ver%d = 0777\n\nfunc ver%d(x int) int {\n\ty := 010\n\tif x == 017 {\n\t\ty += 0o17\n\t}\n\treturn x + y\n}\n", hdr, pkgName, g.uid, g.uid)
+		os.WriteFile(filepath.Join(dir, name), []byte(body), 0o644)
+		classSet["version-constrained-file"] = true
+	}
 	for c := range classSet {
 		spec.Classes = append(spec.Classes, c)
 	}
